@@ -6,6 +6,7 @@ import (
 	"time"
 
 	"github.com/named-data/ndnd/dv/config"
+	"github.com/named-data/ndnd/dv/nfdc"
 	"github.com/named-data/ndnd/dv/table"
 	"github.com/named-data/ndnd/dv/tlv"
 	enc "github.com/named-data/ndnd/std/encoding"
@@ -128,3 +129,11 @@ func (dv *Router) Vf18ExpireNeighbor(name enc.Name) bool {
 	ns.Vf18SetLastSeen(time.Time{})
 	return true
 }
+
+// Vf18Nfdc returns the management command thread (queue control in interleaving tests).
+func (dv *Router) Vf18Nfdc() *nfdc.NfdMgmtThread { return dv.nfdc }
+
+// Vf18Lock / Vf18Unlock: the harness plays a holder of the router lock (e.g. the critical section of
+// advertDataHandler) while other goroutines of the router are started.
+func (dv *Router) Vf18Lock()   { dv.mutex.Lock() }
+func (dv *Router) Vf18Unlock() { dv.mutex.Unlock() }
